@@ -255,7 +255,8 @@ def _signature(pid, rec, why):
     """violation signature: the failing clause of the first failing step, the operation, container kind and element shape"""
     if rec.get("crash"):
         return {"clause": "crash", "rc": rec.get("rc")}
-    first = sorted(why, key=lambda w: (w[0], w[1]))[0] if why else [0, "?", 0]
+    # (the oracle prints the failing clauses of the first 200 records per class and part only)
+    first = sorted(why, key=lambda w: (w[0], w[1]))[0] if why else [len(rec["steps"]), "?", 0]
     t = first[0]
     step = rec["steps"][t - 1] if 0 < t <= len(rec["steps"]) else {"op": "?"}
     # zero sized elements are counted, not identified: a surplus drop shows at the step where the count goes wrong, which
@@ -392,7 +393,7 @@ def check_c06(tier):
             (dict(kinds=KINDS, zst=[True], lens=[0, 1, 2, 3] if th else [0, 2], spare=[1], maxlen=4, maxids=10, maxops=1,
                   inject=True, ops=ops + ["early_close"]), None, None),
             (dict(kinds=KINDS, zst=[False, True], lens=[0, 1, 2, 3], spare=[0, 2], maxlen=4, maxids=14, maxops=5 if th else 4,
-                  inject=True, ops=ops, keymodes=("pair", "same", "alt")), 40000 if th else 1200, 16),
+                  inject=True, ops=ops, keymodes=("pair", "same", "alt")), 20000 if th else 1200, 16),
         ] + ([(dict(kinds=[k], zst=[False], lens=[2], spare=[1], maxlen=3, maxids=9, maxops=2, inject=True,
                     ops=CORE_OPS + ["early_close", "drop_inject"]), None, None) for k in KINDS] if th else []),
         "replay_mode": "shapes" if th else "rotate",
@@ -422,8 +423,8 @@ def check_c08(tier):
             (dict(kinds=KINDS, zst=[True], lens=[0, 1, 2, 3] if th else [0, 2], spare=[0, 1], maxlen=4, maxids=10, maxops=1,
                   inject=False, ops=ALL_OPS + ["early_close"]), None, None),
             (dict(kinds=KINDS, zst=[False, True], lens=[0, 1, 2, 3], spare=[0, 2], maxlen=4, maxids=16, maxops=6 if th else 5,
-                  inject=False, ops=ALL_OPS, keymodes=("pair", "same", "alt")), 40000 if th else 1500, 18),
-        ] + ([(dict(kinds=[k], zst=[False], lens=[1, 3], spare=[1], maxlen=4, maxids=10, maxops=2, inject=False,
+                  inject=False, ops=ALL_OPS, keymodes=("pair", "same", "alt")), 20000 if th else 1500, 18),
+        ] + ([(dict(kinds=[k], zst=[False], lens=[2], spare=[1], maxlen=4, maxids=10, maxops=2, inject=False,
                     ops=CORE_OPS + ["insert", "pop", "swap_remove", "extend", "reserve", "shrink", "splice", "early_close"]),
                None, None) for k in KINDS] if th else []),
         "replay_mode": "shapes" if th else "rotate",
@@ -471,7 +472,7 @@ def check_c16(tier):
                   maxlen=4, maxids=10, maxops=2, inject=False,
                   ops=splits + ["push", "pop", "truncate", "remove", "reserve", "shrink", "convert"]), None, None),
             (dict(kinds=KINDS, zst=[False, True], lens=[0, 2, 4], spare=[0, 2], maxlen=4, maxids=16, maxops=6 if th else 5,
-                  inject=False, ops=SPLIT_OPS, keymodes=("pair", "alt")), 40000 if th else 1500, 18),
+                  inject=False, ops=SPLIT_OPS, keymodes=("pair", "alt")), 20000 if th else 1500, 18),
         ],
         "replay_mode": "shapes" if th else "rotate",
         "extra": _arena_half,
